@@ -414,6 +414,26 @@ def gen_tradeoff_run(rng):
 
 
 # ---------------------------------------------------------------------------------------------------
+def fixed_runs():
+    """deterministic runs: (a) members with a degree of freedom of their own, member 0 attaining an earlier
+    path goal worse than member 1, a later priority pulling the other way; (b) state goals on a variable and
+    on its negated alias at consecutive priorities, a third priority pushing against the first"""
+    out = []
+    for variant in ("multi", "multi_keep_soft"):
+        for later in ({"order": 1}, {"order": 2, "tmax": 9.0}):
+            out.append({"k": "run", "times": [0, 1, 2], "E": 2, "p": [0, "1/2"], "variant": variant, "free_alg": True, "options": {},
+                        "goals": [{"path": True, "fn": "y+z", "prio": 1, "order": 2, "weight": 1, "nominal": 1, "tmin": 11.2},
+                                  dict({"path": True, "fn": "y+z", "prio": 2, "weight": 1, "nominal": 1}, **later)]})
+    for first, second in ((("y", "y", "y", 1.0), ("ny", "ny", "-y", -0.8)), (("ny", "ny", "-y", -0.8), ("y", "y", "y", 1.0))):
+        goals = []
+        for pr, (st, fn, fk, tmax) in enumerate((first, second), 1):
+            goals.append({"path": True, "state": st, "fn": fn, "fk": fk, "range": [-40, 40], "prio": pr, "order": 2, "weight": 1, "tmax": tmax})
+        # priority 3 pushes against priority 1
+        goals.append({"path": True, "fn": "ny" if first[0] == "y" else "y", "prio": 3, "order": 1, "weight": 1, "nominal": 1})
+        out.append({"k": "run", "times": [0, 1, 2], "E": 1, "p": [0], "variant": "multi", "aliases": [["y", "-ny"]], "options": {}, "goals": goals})
+    return out
+
+
 def gen_run(rng):
     n = rng.choice([2, 3, 4])
     E = rng.choice([1, 1, 2])
@@ -482,7 +502,8 @@ def envelope_allowance(c, gs, prio_index, res, n_times):
     nm = ("path_eps_%d_%d" if gs["path"] else "eps_%d_%d") % (prio_index, j)
     if nm not in res:
         return None
-    eps = [float(x) for x in np.ravel(res[nm])]
+    vr = gp.fnum(c.get("options", {}).get("violation_relaxation", 0))
+    eps = [float(x) + vr for x in np.ravel(res[nm])]
     lo, hi = gs.get("range", gp.FRANGE[gs["fn"]])
     tm, tM = gp.target_arrays(gs, n_times)
     out = []
@@ -665,6 +686,7 @@ def run(ctx):
             cases.append(gen_hard(ctx.rng, 3))
         for _ in range(ctx.n(150, 6000)):
             cases.append(gen_store(ctx.rng))
+        cases += fixed_runs()
         for _ in range(ctx.n(14, 600)):
             cases.append(gen_run(ctx.rng))
         for _ in range(ctx.n(14, 300)):
